@@ -84,6 +84,7 @@ type w1Cfg struct {
 	MetaTTLSec      int  `json:"history_meta_ttl_s"`
 	HistoryMax      int  `json:"history_max_publication_limit"`
 	RecoveryMax     int  `json:"recovery_max_publication_limit"`
+	HistRacePm      int  `json:"publish_racing_history_read_pm"`
 	SubDelayPm      int  `json:"broker_subscribe_delay_pm"`
 	SubFailPm       int  `json:"broker_subscribe_fail_pm"`
 	UnsubFailPm     int  `json:"broker_unsubscribe_fail_pm"`
@@ -555,9 +556,14 @@ func (cl *w1SimClient) runOp(op w1Op) bool {
 		if op.Reject {
 			req.Flag |= subscriptionFlagRejectUnrecovered
 		}
+		if op.Tf {
+			req.Tf = &protocol.FilterNode{Key: "c", Cmp: "eq", Val: "1"}
+		}
 		id := cl.id()
 		ok := cl.send(&protocol.Command{Id: id, Subscribe: req}, "subscribe", op.Ch)
-		if ok {
+		if ok && (cl.w.prop == "C02" || cl.w.prop == "C03") {
+			// exactness against the retained history is only decidable at quiescence;
+			// under concurrent publishing (C01) the offset/gap oracle judges the result
 			cl.w.checkRecoverReply(cl, id, req)
 		}
 		return ok
@@ -889,6 +895,7 @@ type w1PubSub struct {
 	inner      *MemoryBroker
 	node       BrokerEventHandler
 	subscribed map[string]int // channel -> number of successful Subscribe minus Unsubscribe calls
+	inHistRace bool
 }
 
 func (b *w1PubSub) RegisterBrokerEventHandler(h BrokerEventHandler) error {
@@ -936,7 +943,18 @@ func (b *w1PubSub) PublishLeave(ch string, info *ClientInfo) error {
 	return b.inner.PublishLeave(ch, info)
 }
 func (b *w1PubSub) History(ch string, opts HistoryOptions) ([]*Publication, StreamPosition, error) {
-	return b.inner.History(ch, opts)
+	pubs, sp, err := b.inner.History(ch, opts)
+	// fault: publishers that hit exactly the window after a recovery read (the
+	// publications go through the lossy PUB/SUB seam like any other)
+	if opts.Filter.Since != nil && !b.inHistRace && b.w.s.Chance(b.w.sc.Cfg.HistRacePm) {
+		b.inHistRace = true
+		b.w.s.Fault("publish_racing_history_read")
+		for i, n := 0, 1+b.w.s.Intn(3); i < n; i++ {
+			b.w.publish(ch)
+		}
+		b.inHistRace = false
+	}
+	return pubs, sp, err
 }
 func (b *w1PubSub) RemoveHistory(ch string) error   { return b.inner.RemoveHistory(ch) }
 func (b *w1PubSub) Close(ctx context.Context) error { return b.inner.Close(ctx) }
@@ -1392,6 +1410,10 @@ func w1Gen(c *simrt.Choice, prop, tier string) any {
 			switch c.Pick(weights...) {
 			case 0:
 				op = w1Op{K: "sub", Ch: pickCh(), Recover: c.Intn(2) == 0}
+				if (prop == "C01" || prop == "C38") && c.Intn(3) == 0 {
+					// recover from an explicit older position while publishers are active
+					op = w1Op{K: "subrec", Ch: pickCh(), Back: c.Intn(7), Ep: "cur"}
+				}
 				if chHas(op.Ch, 'f') && c.Intn(2) == 0 {
 					op.Tf = true
 				}
@@ -1444,6 +1466,9 @@ func w1Gen(c *simrt.Choice, prop, tier string) any {
 	if prop == "C37" {
 		maxOps = 40
 	}
+	if prop == "C01" || prop == "C38" {
+		maxOps = 20
+	}
 	for i := 0; i < npub; i++ {
 		var ops []w1Op
 		k := 1 + c.Intn(maxOps)
@@ -1479,6 +1504,32 @@ func w1Gen(c *simrt.Choice, prop, tier string) any {
 			ops = append(ops, op)
 		}
 		sc.Admins = append(sc.Admins, ops)
+	}
+	if (prop == "C01" || prop == "C38") && c.Intn(4) == 0 {
+		// recovery-burst scenario: a history with filtered entries exists, then a
+		// subscriber recovers from an old position while a publisher keeps publishing
+		// through a lossy PUB/SUB seam (publications buffered during the subscribe
+		// must be merged with the recovered ones, holes must be detected)
+		ch0 := sc.Channels[0]
+		cfg.DropPm, cfg.DupPm, cfg.DelayPm = []int{300, 500}[c.Intn(2)], []int{0, 100}[c.Intn(2)], 0
+		cfg.HistRacePm = []int{0, 300, 600}[c.Intn(3)]
+		var pre []w1Op
+		for i := 0; i < 3+c.Intn(5); i++ {
+			pre = append(pre, w1Op{K: "pub", Ch: ch0})
+		}
+		pre = append(pre, w1Op{K: "sleep", DelayUs: 1000})
+		for i := 0; i < 3+c.Intn(6); i++ {
+			pre = append(pre, w1Op{K: "pub", Ch: ch0})
+		}
+		sc.Pubs = [][]w1Op{pre}
+		sc.Admins = nil
+		sc.Clients = nil
+		for i := 0; i < 1+c.Intn(2); i++ {
+			cl := w1Client{Proto: []string{"json", "protobuf"}[c.Intn(2)], User: "u" + strconv.Itoa(i), Ops: []w1Op{{K: "connect"}, {K: "sleep", DelayUs: 1000}}}
+			cl.Ops = append(cl.Ops, w1Op{K: "subrec", Ch: ch0, Back: 2 + c.Intn(8), Ep: "cur", Tf: chHas(ch0, 'f') && c.Intn(2) == 0})
+			cl.Ops = append(cl.Ops, w1Op{K: "sleep", DelayUs: 100000})
+			sc.Clients = append(sc.Clients, cl)
+		}
 	}
 	if prop == "C37" && cfg.QueueMax > 0 && c.Intn(2) == 0 {
 		// slow-consumer scenario: a subscribed peer stops reading while publications flow
